@@ -524,6 +524,11 @@ func genC04(seed uint64, part string, prop string) *Scenario {
 		pf.rmP = 15
 		pf.afterP = 8
 	}
+	resize := part == "resize"
+	if resize {
+		part = "pty"
+		pf.popP = 0
+	}
 	switch part {
 	case "none":
 		pf.modes = []string{"none"}
@@ -561,6 +566,28 @@ func genC04(seed uint64, part string, prop string) *Scenario {
 				if o.K == "write" && len(o.S) > sc.PtyCols-2 {
 					sc.Clients[ci][oi].S = o.S[:20] + "~\n"
 				}
+			}
+		}
+		if resize {
+			// the window is resized once or twice while the container renders; the
+			// container takes its width from the terminal
+			sc.Fam = prop + "/resize"
+			sc.Width = 0
+			sc.PtyRows = r.Pick(8, 24)
+			sc.PtyCols = r.Pick(80, 200)
+			for k := 0; k < r.Range(1, 2); k++ {
+				op := Op{K: "resize", N: int64(r.Pick(2, 3, 5, 8, 24, 40)), B: r.Pick(40, 60, 80, 120, 200)}
+				var tail []Op
+				for x := 0; x < r.Range(2, 6); x++ {
+					tail = append(tail, Op{K: "waitcycles", N: 1})
+				}
+				if len(sc.Clients) == 0 {
+					sc.Clients = append(sc.Clients, nil)
+				}
+				ci := r.Intn(len(sc.Clients))
+				at := r.Intn(len(sc.Clients[ci]) + 1)
+				ins := append([]Op{{K: "waitcycles", N: int64(r.Range(1, 3))}, op}, tail...)
+				sc.Clients[ci] = append(append(append([]Op(nil), sc.Clients[ci][:at]...), ins...), sc.Clients[ci][at:]...)
 			}
 		}
 	}
